@@ -294,7 +294,7 @@ open finding when an existing test pins the faulty behaviour.
 
 ''' + findings_table() + '''
 
-Open findings are reported as `KNOWN-FINDING:` lines by the C07 / C08 checks, only inside their region.
+Open findings are reported as `KNOWN-FINDING:` lines by the C07 / C08 / C13 checks, only inside their region.
 
 ---------------------------------------------------------------------------------------------
 
@@ -313,7 +313,9 @@ seed only manifests with two bands and an on-site inter-orbital interaction; thi
 D19); C18 gained the `_asynchronous_iter` all-pairs check and the `_get_padding` specification (the seed
 needs 8 bins of prime length 5, outside the enumerated symmetric-variant range); C05 quick now covers
 `_seeley_richard_love` for all (i, j) up to 16 qubits (the seed needs modes 9 / 11 / 13); C20 maps any
-unexpected load failure to a model mismatch instead of crashing.
+unexpected load failure to a model mismatch instead of crashing.  The second round (seeds named
+`*_r2_*`, each in a different function than the first) was caught at once for 11 properties; the 9 that
+were missed led to the extensions noted in the table, and one of them exposed the open finding D24.
 '''
     txt += LIMITS
     open(os.path.join(V, 'DESIGN.md'), 'w').write(txt)
